@@ -49,6 +49,15 @@ CLAIMS["C15"] = dict(
     design="DESIGN.md section 4, C15",
 )
 
+CLAIMS["C16"] = dict(
+    text=("Deductive proof of the bounded FIFO's monitor invariant and operation contracts: for every capacity and every state satisfying the "
+          "invariant (occupied slots are exactly those at distance < count from the read index), New accepts exactly powers of two, Push refuses "
+          "exactly when full and otherwise stores the item at the write position leaving every other slot and the read index unchanged, Pull "
+          "removes the item at the read position or reports closed, Close empties every slot; each operation re-establishes the invariant."),
+    note=TRUST + "Sequential proof per critical section: the step from the monitor invariant to linearizability is the classical argument, not machine-checked; lost wake-ups, 'nothing runs after Close returned' at the asyncprocessor level and producer/closer races are not decided. After cond.Wait the monitor invariant is re-assumed.",
+    design="DESIGN.md section 4, C16 and appendix C.2",
+)
+
 NOT_APPLICABLE = {
     "C11": "process-level property over channels, goroutines and timeouts (no deadlock, cleanup of goroutines/sessions): not expressible as a contract on one call or one data structure; the leaf validators it relies on are covered under other properties",
     "C13": "liveness and schedule property (Close returns in bounded time under all interleavings, no leaked goroutine or socket, callback ordering): outside sequential contract-based verification",
